@@ -1,2 +1,142 @@
-(* C11 - a loaded geometry is a consistent model (placeholder, filled below) *)
-From OM Require Import Base.Lists Geom.GeomModel.
+(* C11 - a loaded geometry is a consistent model: indices, orientations, domains.
+   Property theorems only: each is closed by [exact <lemma>] and followed by Print Assumptions.
+   The model is coq/Geom/GeomModel.v (what Geometry derives from a description), coq/Geom/CondFile.v (conductivity
+   file).  Geometry enters through oracles handed in as data (solid-angle sign per interface, insideness per probe
+   and interface) and through explicit hypotheses on them (monotone chain). *)
+From OM Require Import Base.Lists Base.Ops Geom.GeomModel Geom.GeomProofs Geom.CondFile Geom.CondProofs.
+From Coq Require Import Permutation.
+Local Open Scope Z_scope.
+
+(* --- unknown indices (new ordering): for every geometry, every flag assignment, every excluded-vertex set *)
+Theorem generate_indices_bijection : forall g fl invalid,
+  let ix := generate_indices g false fl invalid in
+  let Nv := valid_count (seq 0 (g_nv g)) invalid in
+  let Nt := ntris live (g_meshes g) fl in
+  let B := ntris barf (g_meshes g) fl in
+  assigned (ix_v ix) ++ sel live fl (ix_t ix) = zseq 0 (Nv + Nt)
+  /\ sel barf fl (ix_t ix) = zseq (Z.of_nat (Nv + Nt)) B
+  /\ (forall v, (v < g_nv g)%nat -> memn v invalid = true -> nth v (ix_v ix) 0 = -1)
+  /\ (forall v, (v < g_nv g)%nat -> memn v invalid = false -> 0 <= nth v (ix_v ix) 0 < Z.of_nat Nv)
+  /\ sel isof fl (ix_t ix) = repeat (-1) (ntris isof (g_meshes g) fl)
+  /\ length (ix_v ix) = g_nv g /\ length (ix_t ix) = length (g_meshes g)
+  /\ ix_n ix = Z.of_nat (Nv + Nt) + Z.of_nat B /\ ix_nb ix = Z.of_nat B.
+Proof. exact generate_indices_new_spec. Qed.
+Print Assumptions generate_indices_bijection.
+
+(* the enumeration 0,1,...,N-1 has no repetition and covers exactly [0,N): "bijection onto [0,N)" *)
+Theorem index_list_is_range : forall a n, NoDup (zseq a n) /\ forall x, In x (zseq a n) <-> a <= x < a + Z.of_nat n.
+Proof. intros a n. split; [apply zseq_NoDup | intros x; apply zseq_In]. Qed.
+Print Assumptions index_list_is_range.
+
+(* --- mesh-pair quantities are symmetric in the pair (any numeric instance) *)
+Theorem pair_quantities_symmetric : forall (F : Type) (o : Ops F) g conds m1 m2,
+  sigma o g conds m1 m2 = sigma o g conds m2 m1 /\ sigma_inv o g conds m1 m2 = sigma_inv o g conds m2 m1
+  /\ indicator o g conds m1 m2 = indicator o g conds m2 m1 /\ relative_orientation g m1 m2 = relative_orientation g m2 m1.
+Proof.
+  intros F o g conds m1 m2. repeat split; try apply eval_common_sym. apply relative_orientation_sym.
+Qed.
+Print Assumptions pair_quantities_symmetric.
+
+Theorem common_domains_is_symmetric_filter : forall g m1 m2,
+  common_domains g m1 m2 = filter (fun k => dom_has_mesh (dom g k) m1 && dom_has_mesh (dom g k) m2) (seq 0 (length (g_doms g))).
+Proof. exact common_domains_sym_form. Qed.
+Print Assumptions common_domains_is_symmetric_filter.
+
+(* --- communicating mesh pairs *)
+Theorem mesh_pairs_characterised : forall g fl snz i j s,
+  In (i, j, s) (make_mesh_pairs g fl snz) <->
+  (j <= i < length (g_meshes g))%nat /\ communicating g fl snz i j = true /\ s = relative_orientation g i j.
+Proof. exact pairs_In. Qed.
+Print Assumptions mesh_pairs_characterised.
+
+Theorem mesh_pairs_no_duplicates : forall g fl snz,
+  NoDup (map (fun p => (fst (fst p), snd (fst p))) (make_mesh_pairs g fl snz)).
+Proof. exact pairs_NoDup. Qed.
+Print Assumptions mesh_pairs_no_duplicates.
+
+Theorem mesh_pairs_cover_each_unordered_pair_once : forall g fl snz i j,
+  (i < length (g_meshes g))%nat -> (j < length (g_meshes g))%nat -> (forall a b, snz a b = snz b a) ->
+  communicating g fl snz i j = true ->
+  In (Nat.max i j, Nat.min i j, relative_orientation g i j) (make_mesh_pairs g fl snz)
+  /\ (i <> j -> forall s, ~ In (Nat.min i j, Nat.max i j, s) (make_mesh_pairs g fl snz)).
+Proof. exact pairs_cover_once. Qed.
+Print Assumptions mesh_pairs_cover_each_unordered_pair_once.
+
+(* --- outermost domain *)
+Theorem outermost_identified : forall g k, outermost_domain g = Some k ->
+  (k < length (g_doms g))%nat /\ no_inside (dom g k) = true /\ forall j, (j < k)%nat -> no_inside (dom g j) = false.
+Proof. exact outermost_domain_spec. Qed.
+Print Assumptions outermost_identified.
+
+Theorem outermost_unique_found : forall g k, (k < length (g_doms g))%nat -> no_inside (dom g k) = true ->
+  (forall j, (j < length (g_doms g))%nat -> no_inside (dom g j) = true -> j = k) -> outermost_domain g = Some k.
+Proof. exact outermost_domain_unique. Qed.
+Print Assumptions outermost_unique_found.
+
+Theorem outermost_absent_iff : forall g, outermost_domain g = None <-> forall d, In d (g_doms g) -> no_inside d = false.
+Proof. exact outermost_domain_none. Qed.
+Print Assumptions outermost_absent_iff.
+
+Theorem outermost_meshes_flagged : forall g fl k m,
+  length (set_outermost g fl k) = length fl /\
+  f_cb (nth m (set_outermost g fl k) flags0) = f_cb (nth m fl flags0) /\
+  f_iso (nth m (set_outermost g fl k) flags0) = f_iso (nth m fl flags0) /\
+  f_out (nth m (set_outermost g fl k) flags0) =
+    (f_out (nth m fl flags0) || (memn m (flat_map (fun b => map snd (b_om b)) (dom g k)) && Nat.ltb m (length fl))).
+Proof. intros g fl k m. rewrite set_outermost_raise. apply raise_out_spec. Qed.
+Print Assumptions outermost_meshes_flagged.
+
+(* --- nested / non-nested classification *)
+Theorem nested_flag_characterised : forall g outer, check_nested g outer = true <->
+  (forall k, (k < length (g_doms g))%nat -> k <> outer -> (count_inside (dom g k) < 2)%nat)
+  /\ (forall m, (m < length (g_meshes g))%nat -> oriented_sum g m mod 4294967296 <> 0).
+Proof. exact check_nested_iff. Qed.
+Print Assumptions nested_flag_characterised.
+
+(* full statement wanted: check_nested g outer = true <-> chain_spec g.  The faithful model satisfies only one
+   direction (and that under the orientation criterion) ... *)
+Theorem nested_classification_correct_partial : forall g outer, chain_spec g ->
+  (forall m, (m < length (g_meshes g))%nat -> oriented_sum g m mod 4294967296 <> 0) -> check_nested g outer = true.
+Proof. exact nested_partial. Qed.
+Print Assumptions nested_classification_correct_partial.
+
+(* ... and violates the other: two sibling inclusions (topology of data/HeadNNb) are classified nested *)
+Theorem nested_classification_correct_refuted :
+  exists g outer, outermost_domain g = Some outer /\ check_nested g outer = true /\ ~ chain_spec g.
+Proof. exact nested_refuted. Qed.
+Print Assumptions nested_classification_correct_refuted.
+
+(* --- every point off the surfaces lies in exactly one domain (nested chain, monotone insideness) *)
+Theorem unique_domain_nested_chain : forall g n ins ss,
+  Forall2 (@Permutation _) ss (chain_sigs n) -> Permutation (map sig_of (g_doms g)) ss -> monotone n ins ->
+  exists k, (k < length (g_doms g))%nat /\ dom_contains ins (dom g k) = true /\ domain_of_point g ins = Some k
+            /\ forall k', (k' < length (g_doms g))%nat -> dom_contains ins (dom g k') = true -> k' = k.
+Proof.
+  intros g n ins ss F P M. apply count_one_unique. eapply unique_domain_chain; eauto.
+Qed.
+Print Assumptions unique_domain_nested_chain.
+
+Example chain3_hypotheses_satisfiable :
+  monotone 3 (fun i => Nat.leb 1 i) /\ length (filter (contains_sig (fun i => Nat.leb 1 i)) (chain_sigs 3)) = 1%nat.
+Proof. split; [intros k Hk; destruct k as [|[|[|k]]]; simpl; auto; lia | vm_compute; reflexivity]. Qed.
+
+(* --- conductivities are attached by name, for any line order, comments anywhere, any domain order *)
+Theorem cond_attached_by_name : forall (V : Type) (ls : list (cline V)) doms vs,
+  load_cond true ls doms = Some vs <-> map (fun d => first_entry d ls) doms = map (@Some V) vs.
+Proof. exact load_cond_spec. Qed.
+Print Assumptions cond_attached_by_name.
+
+Theorem cond_attached_by_name_order_free : forall (V : Type) (ls ls' : list (cline V)) doms,
+  Permutation ls ls' -> NoDup (names V ls) -> load_cond true ls' doms = load_cond true ls doms.
+Proof. exact load_cond_order_free. Qed.
+Print Assumptions cond_attached_by_name_order_free.
+
+Theorem cond_comments_ignored : forall (V : Type) n (ls : list (cline V)),
+  first_entry n (filter (fun l => match l with CComment => false | _ => true end) ls) = first_entry n ls.
+Proof. exact first_entry_no_comments. Qed.
+Print Assumptions cond_comments_ignored.
+
+Theorem cond_missing_domain_rejected : forall (V : Type) (ls : list (cline V)) doms d,
+  In d doms -> first_entry d ls = None -> load_cond true ls doms = None.
+Proof. exact load_cond_missing. Qed.
+Print Assumptions cond_missing_domain_rejected.
